@@ -8,6 +8,7 @@ import F3.Proofs.NoFailureBridge
 import F3.Proofs.NoFailureBridgeP
 import F3.Proofs.NetworkQuiet
 import F3.Proofs.SignedNetwork
+import F3.Proofs.EmittedValidBridge
 /-!
 # C01 — Agreement
 
@@ -673,4 +674,24 @@ theorem agreement_from_key_usage_nonvacuous :
 
 end Audit2
 
+end F3.Props.C01
+
+namespace F3.Props.C01
+section HonestEmissions
+open F3 F3.Instance F3.Bridge
+
+/-- **What an honest member of a network sends, every honest member's validator lets through** (the link between
+C07's `emitted_valid` and the network structure the agreement theorems are about): in a `NetworkV`, every
+broadcast effect of an honest member with positive power is a delivery admissible (`OpValidG`) at any member. So
+the `valid` field the agreement theorems demand of deliveries is met by honest traffic itself — it constrains
+Byzantine traffic only. -/
+theorem honest_emissions_deliverable {t : Table} {F : Finset Pid} {W : Votes} (N : NetworkV t F W) (p : Pid)
+    (hp : p ∈ (ids t).toFinset) (hF : p ∉ F) (hpos : 0 < t.power p) (r : Nat) (ph : Phase) (v : Chain) (tk : Bool)
+    (j : Option Just)
+    (hm : Eff.broadcast r ph v tk j ∈ (run (init (N.runs p hp hF).cfg t (N.runs p hp hF).input)
+      (.start (N.runs p hp hF).start :: (N.runs p hp hF).ops)).2) (now : Int) :
+    OpValidG W t (.recv now (F3.EmittedValid.msgOf p r ph v j)) :=
+  F3.EmittedValid.emitted_deliverable N p hp hF hpos r ph v tk j hm now
+
+end HonestEmissions
 end F3.Props.C01
